@@ -29,7 +29,7 @@ from vf.props.common import harness_error, inconclusive, proved, violation
 ID = "C08"
 LEVEL = "model_checking"
 ITEM_BUDGET_S = {"quick": 400, "thorough": 1500}
-QT = {"quick": 15000, "thorough": 60000}
+QT = {"quick": 15000, "thorough": 30000}
 _TIER = "quick"
 LPM = ["auto", "linprog", "highs", "highs-ds", "highs-ipm"]
 STATUS_MAP = {0: "OPTIMAL", 1: "MAX_ITERATIONS", 2: "INFEASIBLE", 3: "UNBOUNDED", 4: "FAILED"}
